@@ -2,3 +2,6 @@ import Grol.Wire
 import Grol.Suite
 import Grol.Trie
 import Grol.TrieSuite
+import Grol.Token
+import Grol.Lexer
+import Grol.LexSuite
